@@ -86,6 +86,9 @@ mod xml;
 
 pub use cm::format_document as format_commonmark;
 pub use cm::format_document_with_plugins as format_commonmark_with_plugins;
+#[cfg(comrak_verif)]
+#[doc(hidden)]
+pub use cm::verif_hooks as verif_cm_hooks;
 pub use html::format_document as format_html;
 pub use html::format_document_with_plugins as format_html_with_plugins;
 #[doc(inline)]
